@@ -148,6 +148,12 @@ def zoo(rng, thorough):
         {'centers__symmetric_range': [True, False], 'offset': [None, 0.1]})
     add('KernelApproxLiftingFn', lambda: pykoop.KernelApproxLiftingFn(pykoop.RandomFourierKernelApprox(n_components=4, random_state=3)),
         'lifting', {'kernel_approx__n_components': [3, 4], 'kernel_approx__method': ['weight_only', 'weight_offset']})
+    # default-constructed estimators whose nested defaults are unseeded: fits are not repeatable, so only the
+    # parameter / input / shared-state clauses apply to them (tags nondet)
+    add('RbfLiftingFn/default', lambda: pykoop.RbfLiftingFn(), 'lifting', tags={'nondet': True})
+    add('KernelApproxLiftingFn/default', lambda: pykoop.KernelApproxLiftingFn(), 'lifting', tags={'nondet': True})
+    add('ClusterCenters/default', lambda: pykoop.ClusterCenters(), 'centers', tags={'nondet': True})
+    add('GaussianMixtureRandomCenters/default', lambda: pykoop.GaussianMixtureRandomCenters(), 'centers', tags={'nondet': True})
     add('SplitPipeline', lambda: pykoop.SplitPipeline(
         lifting_functions_state=[('pl', pykoop.PolynomialLiftingFn(order=2)), ('dl', pykoop.DelayLiftingFn(1, 0))],
         lifting_functions_input=[('du', pykoop.DelayLiftingFn(0, 1))]), 'lifting',
@@ -266,8 +272,19 @@ def run_history(ctx, z, length, frames=False):
     p0 = digest(est.get_params(deep=True))
     last = None
     for step in range(length):
-        ops = ['fit', 'fit', 'read', 'set', 'get', 'clone']
+        ops = ['fit', 'fit', 'read', 'set', 'get', 'clone', 'mutate']
         op = rng.choice(ops)
+        if op == 'mutate' and not frames:
+            # the caller overwrites a data array IN PLACE (same object, new contents); later fits on it must see the
+            # new contents (no decomposition / statistics cached by object identity)
+            i = rng.randrange(len(D))
+            X, kw = D[i]
+            e = 1 if kw.get('episode_feature') else 0
+            X[:, e:] = X[::-1, e:] * rng.choice([0.5, 1.5, 3.0]) + rng.choice([0.0, 0.25])
+            hist.append(f'data[{i}] overwritten in place')
+            if last == i:
+                last = None
+            continue
         if op == 'fit':
             i = rng.randrange(len(D))
             X, kw = D[i]
@@ -292,7 +309,7 @@ def run_history(ctx, z, length, frames=False):
             except Exception as ex:
                 fails.append((f'fresh clone raised {type(ex).__name__} where the used estimator fitted', {'estimator': z['name']}))
                 continue
-            d = same_fit(z, est, fresh)
+            d = None if z['tags'].get('nondet') else same_fit(z, est, fresh)
             if d:
                 fails.append((f'fitted state after history differs from a fresh estimator with the same parameters '
                               f'(attributes: {d})', dict(z['tags'], estimator=z['name'], attr=d.split(',')[0].split('.')[0])))
@@ -342,6 +359,72 @@ def run_history(ctx, z, length, frames=False):
             if fitted_attrs(c):
                 fails.append(('clone carries fitted state', {'estimator': z['name'], 'part': 'params'}))
             hist.append('clone')
+    return hist, fails
+
+
+def refit_sweep(ctx, z):
+    """systematic histories: on ONE instance, for every listed parameter and value: set_params, fit on the same data,
+    compare the fitted state with a fresh clone fitted once (stale fitted state surviving a parameter change is the
+    classic history dependence); then the same with a second estimator of the class fitted in between"""
+    rng = ctx.rng
+    D = data_sets(rng, z['kind'])
+    X, kw = D[0]
+    est = z['make']()
+    hist, fails = [], []
+    try:
+        est.fit(X, **kw)
+    except Exception:
+        return hist, fails
+    hist.append('fit(0)')
+    steps = [(k, v) for k in sorted(z['params']) for v in z['params'][k]]
+    if z['tags'].get('lmi'):
+        steps = steps[:3]
+    for k, v in steps:
+        est.set_params(**{k: v})
+        hist.append(f'set_params({k}={v})')
+        try:
+            est.fit(X, **kw)
+        except Exception as ex:
+            hist.append(f'fit(0) raised {type(ex).__name__}')
+            continue
+        hist.append('fit(0)')
+        fresh = sklearn.base.clone(est)
+        try:
+            fresh.fit(X, **kw)
+        except Exception as ex:
+            fails.append((f'fresh clone raised {type(ex).__name__} where the used estimator fitted', {'estimator': z['name']}))
+            continue
+        d = None if z['tags'].get('nondet') else same_fit(z, est, fresh)
+        if d:
+            fails.append((f'after set_params({k}={v}) and a re-fit the fitted state differs from a fresh estimator with the same '
+                          f'parameters (attributes: {d})', dict(z['tags'], estimator=z['name'], attr=d.split(',')[0].split('.')[0])))
+            break
+    # same array object, new contents, fit again
+    e = 1 if kw.get('episode_feature') else 0
+    X[:, e:] = X[::-1, e:] * 1.5 + 0.25
+    hist.append('data[0] overwritten in place')
+    try:
+        est.fit(X, **kw)
+        hist.append('fit(0)')
+        fresh = sklearn.base.clone(est).fit(X, **kw)
+        d = None if z['tags'].get('nondet') else same_fit(z, est, fresh)
+        if d:
+            fails.append((f'after the data array was overwritten in place, a re-fit differs from a fresh estimator fitted on the '
+                          f'same array (attributes: {d})', dict(z['tags'], estimator=z['name'], attr=d.split(',')[0].split('.')[0])))
+    except Exception as ex:
+        hist.append(f'fit(0) raised {type(ex).__name__}')
+    # another instance of the class fitted on other data in between must not disturb this one
+    if not z['tags'].get('lmi') and len(D) > 1:
+        before = digest(fitted_attrs(est))
+        other = z['make']()
+        try:
+            other.fit(*D[1][:1], **D[1][1])
+            hist.append('other instance: fit(1)')
+        except Exception:
+            pass
+        if digest(fitted_attrs(est)) != before:
+            fails.append(('fitting ANOTHER instance of the class changed the fitted state of this one (shared state)',
+                          {'estimator': z['name'], 'part': 'shared'}))
     return hist, fails
 
 
@@ -406,7 +489,8 @@ def run(ctx):
                 'set_params (incl. nested step__param) / get_params round trip / clone on ONE instance; after every fit '
                 'the fitted state (deep by-value digest of all fitted attributes incl. nested estimators) is compared '
                 'with a fresh clone fitted on the same data; parameters and input arrays are digested around every '
-                'call; read-only calls from 3 threads compared with sequential answers; a stop-request probe')
+                'call; a systematic sweep (every listed parameter value: set_params, re-fit, compare with a fresh clone; another '
+                'instance fitted in between); read-only calls from 3 threads compared with sequential answers; a stop-request probe')
     ctx.explanation = ('level "other": the Lean machine (theorems C15_*) states which histories must be indistinguishable; '
                        'this check executes real histories and verifies the implementation respects those equalities. '
                        'Bit-exact for deterministic estimators, tolerance for KMeans / GaussianMixture / SDP solver.')
@@ -427,6 +511,11 @@ def run(ctx):
             for why, tags in fails:
                 ctx.fail(f"{z['name']}: {why}", {'estimator': z['name'], 'history': hist}, tags)
             z['_writes'] = z.get('_writes', False) or any(t.get('part') == 'read' for _, t in fails)
+        hist, fails = refit_sweep(ctx, z)
+        ctx.count('refit_sweeps')
+        ctx.record_case({'estimator': z['name'], 'history': hist}, len(hist) >= 2)
+        for why, tags in fails:
+            ctx.fail(f"{z['name']}: {why}", {'estimator': z['name'], 'history': hist}, tags)
         if not z['tags'].get('lmi') and not z.get('_writes'):
             # (only meaningful when read-only calls do not write: concurrent writers to numpy object arrays can crash
             # the interpreter, and the premise of the interleaving theorem is already refuted)
